@@ -23,7 +23,7 @@ from sims import pdu_ref as R
 
 logging.disable(logging.CRITICAL)
 
-LEAN_TARGETS = ["NfcVerif.Props.C11", "drv_c11"]
+LEAN_TARGETS = ["NfcVerif.Props.C11", "drv_c11", "NfcVerif.Props.TablesPdu"]
 
 THEOREMS = [
     "NfcVerif.C11.pdu_roundtrip",
@@ -201,6 +201,7 @@ def mutate(rng, b):
 
 # ---------------------------------------------------------------- check
 def run(ck):
+    ck.tables("TablesPdu")   # T-tie for constants: source tables re-extracted, bridge theorems re-proved
     import nfc.llcp.pdu as P
     rng = ck.rng
     T = ck.thorough
